@@ -8,7 +8,14 @@ meta = json.load(open(os.path.join(sd, "meta.json")))
 demo_files = [f for f in os.listdir(sd) if f.endswith(".rs")]
 assert len(demo_files) == 1, demo_files
 demo = os.path.join(sd, demo_files[0])
-place = os.path.join(wt, meta["demo_placement"].split()[0])
+placement = meta["demo_placement"]
+append_mode = placement.lower().startswith("append")
+if append_mode:
+    import re as _re
+    target = [w.strip("(),") for w in placement.split() if w.strip("(),").endswith(".rs") and not w.startswith("_seeded")][-1]
+    place = os.path.join(wt, target)
+else:
+    place = os.path.join(wt, placement.split()[0])
 def sh(cmd, **kw):
     p = subprocess.run(cmd, shell=True, cwd=wt, stdout=subprocess.PIPE, stderr=subprocess.STDOUT, text=True, **kw)
     return p.returncode, p.stdout
@@ -17,17 +24,36 @@ def clean():
 clean()
 res = {"date": time.strftime("%Y-%m-%d %H:%M"), "worktree": wt}
 os.makedirs(os.path.dirname(place), exist_ok=True)
-shutil.copy(demo, place)
+def put_demo():
+    if append_mode:
+        open(place, "a").write("\n" + open(demo).read())
+    else:
+        shutil.copy(demo, place)
+def drop_demo():
+    if append_mode:
+        sh("git checkout -- %s" % os.path.relpath(place, wt))
+    else:
+        os.remove(place)
+put_demo()
 rc, out = sh(meta["demo_cmd"] + " 2>&1 | tail -30")
 ok1 = "test result: ok" in out and "FAILED" not in out
 res["pristine_demo"] = "pass" if ok1 else "FAIL"; res["pristine_demo_tail"] = out[-400:]
+if append_mode:
+    drop_demo()
 rc, out = sh("git apply %s" % os.path.join(sd, "patch.diff"))
 res["patch_applies"] = rc == 0
+if append_mode:
+    put_demo()
 rc, out = sh(meta["demo_cmd"] + " 2>&1 | tail -60")
 ok2 = "FAILED" in out or "panicked" in out
 lines = [l for l in out.split("\n") if "panicked" in l or "assert" in l.lower() or "left:" in l or "right:" in l]
 res["patched_demo"] = "fails" if ok2 else "DOES-NOT-FAIL"; res["patched_demo_failure"] = "\n".join(lines[:6])[:800]
-os.remove(place)
+if append_mode:
+    # remove only the appended demo, keep the patch
+    txt = open(place).read(); dtxt = "\n" + open(demo).read()
+    assert txt.endswith(dtxt); open(place, "w").write(txt[:-len(dtxt)])
+else:
+    os.remove(place)
 rc, out = sh("cargo nextest run --workspace --offline --no-fail-fast --test-threads 8 2>&1 | tail -5", timeout=3600)
 m = re.search(r"(\d+) tests run: (\d+) passed(?: \((\d+) [a-z]+\))?(?:, (\d+) failed)?", out)
 res["suite"] = m.group(0) if m else out[-300:]
